@@ -108,16 +108,51 @@ def plan_seq(pid, tier, seed, ncpu):
     mult = total / float(q)
     shares = sum(s for _, s in profiles)
 
+    extra_floors = {}
+    extra_rule = ""
+    m10 = 1 if tier == "quick" else 10
+
     def jobs(bindirs, workdir, known):
         js = []
         for (p, s) in profiles:
             n = max(1, (ncpu * s) // shares)
             js += seq_jobs(bindirs["dbg"], workdir, known, pid, p, total * s // shares, ops, seed, n)
+        # concurrent clauses
+        if pid in ("C03", "C07", "C10"):
+            js += con_jobs(bindirs["dbg"], workdir, known, pid, "baton", seed, 4, programs=scale(tier, 1600, 40000), schedules=scale(tier, 10, 20))
+            js += con_jobs(bindirs["dbg"], workdir, known, pid, "stress", seed, 2, programs=scale(tier, 300, 8000), schedules=scale(tier, 5, 10))
+        if pid == "C04":
+            js += con_jobs(bindirs["dbg"], workdir, known, pid, "burstn", seed, 3, rounds=scale(tier, 18, 300))
+            js += con_jobs(bindirs["dbg"], workdir, known, pid, "burst1", seed, 1, rounds=scale(tier, 20, 300))
+            js += con_jobs(bindirs["dbg"], workdir, known, pid, "baton", seed, 2, programs=scale(tier, 800, 20000), schedules=10)
+            if tier == "thorough":
+                js += con_jobs(bindirs["rel"], workdir, known, pid, "burstn", seed + 5, 4, rounds=200, variant="rel")
+        if pid == "C16":
+            js += con_jobs(bindirs["dbg"], workdir, known, pid, "iter", seed, 4, rounds=scale(tier, 40, 1000))
         return js
 
-    return dict(variants=["dbg"], jobs=jobs,
-                floors={k: int(v * (1 if tier == "quick" else min(mult, 10))) for k, v in floors.items()},
-                rule=rule, assumptions=COMMON_ASSUMPTIONS, watchdog_s=scale(tier, 600, 3600))
+    if pid in ("C03", "C07", "C10"):
+        extra_floors = {"quiescence_checks": 1000 * m10}
+        if pid == "C03":
+            extra_floors["refills_performed"] = 100 * m10
+        extra_rule = (" Concurrent clause: small random programs under the serialized scheduler and free-running with injected delays; after join + sync() "
+                      "the structural walker, the counters, the live-object registry and (C03) a refill probe run: every key is invalidated, then max_capacity "
+                      "fresh unit-weight keys are inserted one by one and must all be retained.")
+    if pid == "C04":
+        extra_floors = {"burst_overshoot_samples": 10 * m10}
+        extra_rule = (" Overshoot clause: 1-8 threads x 3840 un-synced inserts of distinct unit-weight keys (clock within / beyond the periodical-sync interval, "
+                      "with and without delays injected at the maintenance phase points); each thread samples the map size right after its own insert: never above "
+                      "max_capacity + write queue (384) + 2 x threads.")
+    if pid == "C16":
+        extra_floors = {"iterations_overlapping_a_write_of_a_yielded_key": 1000 * m10}
+        extra_rule = (" Concurrent clause: 1-4 writers update a fixed key set (1..200 keys around shard multiples) with unique values while 1-3 threads iterate: every "
+                      "key exactly once, value written by an insert that began before the iteration ended and not replaced by a write that completed before it began.")
+    fl = {k: int(v * (1 if tier == "quick" else min(mult, 10))) for k, v in floors.items()}
+    fl.update(extra_floors)
+    variants = ["dbg"] + (["rel"] if (tier == "thorough" and pid == "C04") else [])
+    return dict(variants=variants, jobs=jobs, floors=fl,
+                rule=rule + extra_rule, assumptions=COMMON_ASSUMPTIONS + (CON_ASSUMPTIONS[len(COMMON_ASSUMPTIONS):] if extra_rule else []),
+                watchdog_s=scale(tier, 900, 7200))
 
 
 def plan_c15(pid, tier, seed, ncpu):
@@ -213,7 +248,304 @@ def plan_c09(pid, tier, seed, ncpu):
                 watchdog_s=scale(tier, 900, 7200))
 
 
+
+# ------------------------------------------------------------------------------------------------
+# observers: ASan/LSan, Miri, TSan, valgrind
+# ------------------------------------------------------------------------------------------------
+import re
+
+HARNESS_DIR = os.path.join(os.path.dirname(os.path.dirname(os.path.abspath(__file__))), "harness")
+TARGET_DIR = os.path.join(os.path.dirname(os.path.dirname(os.path.abspath(__file__))), "target")
+ROOT_DIR = os.path.dirname(os.path.dirname(os.path.abspath(__file__)))
+
+
+def _read(path):
+    try:
+        with open(path, errors="replace") as f:
+            return f.read()
+    except OSError:
+        return ""
+
+
+def _first_repo_frame(text):
+    for line in text.splitlines():
+        m = re.search(r"(mini_moka::[A-Za-z0-9_:<>]+)", line)
+        if m and "verif" not in m.group(1):
+            loc = re.search(r"(src/[A-Za-z0-9_/]+\.rs):(\d+)", line)
+            return m.group(1)[:80] + ("@" + loc.group(1) + ":" + loc.group(2) if loc else "")
+    m = re.search(r"/repo/(src/[A-Za-z0-9_/]+\.rs):(\d+)", text)
+    return (m.group(1) + ":" + m.group(2)) if m else "?"
+
+
+def asan_crash(prop, cmdline):
+    def h(rc, lp):
+        t = _read(lp)
+        m = re.search(r"ERROR: (AddressSanitizer|LeakSanitizer): ([A-Za-z0-9\- ]+)", t)
+        if not m:
+            return None
+        kind = m.group(2).strip().split(" on ")[0].replace(" ", "-")
+        body = t[m.start():]
+        sig = "asan:%s:%s" % (kind, _first_repo_frame(body))
+        return dict(props=[prop, "C08"] if prop != "C08" else ["C08"], sig=sig, detail=body[:1500].replace("\n", " | "),
+                    history="# sanitizer report; reproduce with:\n# ASAN_OPTIONS=detect_leaks=1 %s\n%s\n" % (cmdline, body[:6000]))
+    return h
+
+
+def miri_crash(prop, cmdline):
+    def h(rc, lp):
+        t = _read(lp)
+        m = re.search(r"error: (Undefined Behavior|unsupported operation|memory leaked|the evaluated program leaked memory|Data race)[^\n]*", t)
+        if not m:
+            m = re.search(r"error: [^\n]*(data race|leak)[^\n]*", t, re.I)
+        if not m:
+            return None
+        body = t[m.start():]
+        sig = "miri:%s:%s" % (re.sub(r"0x[0-9a-f]+|alloc\d+|<\d+>", "_", m.group(0))[:90].replace(" ", "-"), _first_repo_frame(body))
+        return dict(props=[prop, "C08"] if prop != "C08" else ["C08"], sig=sig, detail=body[:1500].replace("\n", " | "),
+                    history="# Miri report; reproduce with:\n# %s\n%s\n" % (cmdline, body[:6000]))
+    return h
+
+
+def with_prefix(jobs, prefix):
+    for j in jobs:
+        j["stat_prefix"] = prefix
+    return jobs
+
+
+def asan_wrap(jobs, prop):
+    for j in jobs:
+        j["env"] = dict(j.get("env", {}), ASAN_OPTIONS="detect_leaks=1:halt_on_error=1:abort_on_error=0:symbolize=1",
+                        ASAN_SYMBOLIZER_PATH="/usr/bin/llvm-symbolizer-14")
+        j["crash_handler"] = asan_crash(prop, " ".join(j["argv"]))
+        j["name"] = "asan-" + j["name"]
+        j["out"] = j["out"].replace(".json", ".asan.json")
+        i = j["argv"].index("--out")
+        j["argv"][i + 1] = j["out"]
+    return with_prefix(jobs, "asan_")
+
+
+def miri_jobs(workdir, known, prop, specs, seed, tree_borrows=False):
+    """specs: list of (bin, [args]) ; each becomes one `cargo miri run`."""
+    jobs = []
+    flags = "-Zmiri-disable-isolation -Zmiri-permissive-provenance" + (" -Zmiri-tree-borrows" if tree_borrows else "")
+    for n, (b, a) in enumerate(specs):
+        out = os.path.join(workdir, "miri-%s-%d%s.json" % (b, n, "-tb" if tree_borrows else ""))
+        argv = ["cargo", "+nightly", "miri", "run", "--offline", "--target-dir", os.path.join(TARGET_DIR, "miri"), "--bin", b, "--",
+                "--prop", prop, "--out", out, "--known", ",".join(known)] + a
+        j = dict(name="miri-%s-%d%s" % (b, n, "-tb" if tree_borrows else ""), argv=argv, out=out, kind="report", cwd=HARNESS_DIR,
+                 env={"MIRIFLAGS": flags, "RUSTFLAGS": "--cfg mini_moka_verif"}, watchdog_s=1500)
+        j["crash_handler"] = miri_crash(prop, "MIRIFLAGS='%s' RUSTFLAGS='--cfg mini_moka_verif' %s" % (flags, " ".join(argv)))
+        jobs.append(j)
+    return with_prefix(jobs, "miri_")
+
+
+def deq_jobs(bindir, workdir, known, prop, seed, nshards, cases, ops=80):
+    jobs = []
+    for s in range(nshards):
+        out = os.path.join(workdir, "deq-%d.json" % s)
+        argv = [os.path.join(bindir, "dequemon"), "--prop", prop, "--seed", str(seed * 7 + s), "--cases", str(cases // nshards), "--ops", str(ops), "--out", out]
+        jobs.append(dict(name="deq-%d" % s, argv=argv, out=out, kind="report"))
+    return jobs
+
+
+def sketch_jobs(bindir, workdir, known, prop, seed, nshards, budget, big=False, exhaustive_len=9):
+    jobs = []
+    for s in range(nshards):
+        out = os.path.join(workdir, "sketch-%d.json" % s)
+        argv = [os.path.join(bindir, "sketchmon"), "--prop", prop, "--seed", str(seed), "--shard", str(s), "--nshards", str(nshards),
+                "--budget", str(budget), "--exhaustive-len", str(exhaustive_len), "--out", out] + (["--big", "1"] if big else [])
+        jobs.append(dict(name="sketch-%d" % s, argv=argv, out=out, kind="report"))
+    return jobs
+
+
+def tsan_jobs(bindir, workdir, known, prop, seed, nshards, programs):
+    jobs = con_jobs(bindir, workdir, known, prop, "stress", seed + 3, nshards, programs=programs, schedules=5, variant="tsan")
+    supp = os.path.join(ROOT_DIR, "tsan.supp")
+    for j in jobs:
+        j["env"] = {"TSAN_OPTIONS": "suppressions=%s halt_on_error=0 exitcode=0 second_deadlock_stack=1" % supp}
+        j["kind"] = "custom"
+        out = j["out"]
+
+        def collect(rc, lp, out=out, cmd=" ".join(j["argv"])):
+            t = _read(lp)
+            res = {"violations": []}
+            blocks = t.split("WARNING: ThreadSanitizer: ")
+            ours = 0
+            others = 0
+            for b in blocks[1:]:
+                if "mini_moka::" in b and "data race" in b[:40]:
+                    ours += 1
+                    if len(res["violations"]) < 2:
+                        res["violations"].append(dict(props=[prop], sig="tsan:data-race:%s" % _first_repo_frame(b), detail=b[:1500].replace("\n", " | "),
+                                                      history="# ThreadSanitizer report; reproduce with:\n# %s\n%s\n" % (cmd, b[:6000])))
+                else:
+                    others += 1
+            if os.path.exists(out):
+                import json
+                with open(out) as f:
+                    r = json.load(f)
+                r["stats"]["tsan_reports_in_mini_moka"] = ours
+                r["stats"]["tsan_reports_elsewhere_not_counted"] = others
+                res["report"] = r
+            else:
+                res["problem"] = "tsan shard wrote no report (rc %s)" % rc
+            return res
+        j["collect"] = collect
+    return with_prefix(jobs, "tsan_")
+
+
+def valgrind_jobs(bindir, workdir, known, prop, seed):
+    jobs = []
+    specs = [("seqmon", ["--profile", "safety", "--histories", "1500", "--ops", "40", "--drop-percent", "20"]),
+             ("dequemon", ["--cases", "2000", "--ops", "60"]),
+             ("conmon", ["--mode", "stress", "--programs", "40", "--schedules", "3"])]
+    for n, (b, a) in enumerate(specs):
+        out = os.path.join(workdir, "vg-%s.json" % b)
+        argv = ["valgrind", "--error-exitcode=9", "--leak-check=full", "--errors-for-leak-kinds=definite", "-q",
+                os.path.join(bindir, b), "--prop", prop, "--seed", str(seed + 11), "--out", out, "--known", ",".join(known)] + a
+        j = dict(name="vg-%s" % b, argv=argv, out=out, kind="custom", watchdog_s=3000)
+
+        def collect(rc, lp, out=out, cmd=" ".join(argv)):
+            t = _read(lp)
+            res = {"violations": []}
+            if rc == 9 or "Invalid read" in t or "Invalid write" in t or "definitely lost" in t:
+                m = re.search(r"==\d+== (Invalid [a-z]+ of size \d+|Invalid free|[\d,]+ bytes in [\d,]+ blocks are definitely lost)", t)
+                kind = m.group(1) if m else "error"
+                kind = re.sub(r"[\d,]+ bytes in [\d,]+ blocks are ", "", kind)
+                res["violations"].append(dict(props=[prop], sig="memcheck:%s:%s" % (kind.replace(" ", "-"), _first_repo_frame(t)), detail=t[:1500].replace("\n", " | "),
+                                              history="# valgrind memcheck report; reproduce with:\n# %s\n%s\n" % (cmd, t[:6000])))
+            if os.path.exists(out):
+                import json
+                with open(out) as f:
+                    res["report"] = json.load(f)
+            elif not res["violations"]:
+                res["problem"] = "valgrind job wrote no report (rc %s)" % rc
+            return res
+        j["collect"] = collect
+        jobs.append(j)
+    return with_prefix(jobs, "memcheck_")
+
+
+def plan_c14(pid, tier, seed, ncpu):
+    def jobs(bindirs, workdir, known):
+        js = sketch_jobs(bindirs["dbg"], workdir, known, pid, seed, max(1, ncpu // 2), scale(tier, 1200000, 40000000), big=(tier == "thorough"), exhaustive_len=scale(tier, 9, 11))
+        js += seq_jobs(bindirs["dbg"], workdir, known, pid, "sketchapi", scale(tier, 160000, 4000000), 50, seed, max(1, ncpu // 2))
+        return js
+
+    m = 1 if tier == "quick" else 10
+    return dict(variants=["dbg"], jobs=jobs,
+                floors={"aging_steps_capacity_tiny": 100, "aging_steps_capacity_small": 100, "aging_steps_capacity_medium": 20 * m, "saturated_counter_events": 1000 * m,
+                        "sketch_comparisons": 10000 * m, "sketch_gets_recorded": 1000 * m, "collision_free_estimates_checked": 10000 * m,
+                        "bounded_exhaustive_sequences": 10000},
+                rule="the real FrequencySketch is driven through a facade against an exact reference (count per hash, saturating at 15, floor-halved by aging): capacities "
+                     "{0,1,2,3,5,127,128,129,255,257,1000,65537 (+2^20 thorough)} x streams {uniform, Zipf, few hot, all-equal, sequential, slot-aware spreading adversary}; after "
+                     "every increment: estimate in 0..15, >= reference, == reference without collisions, no other estimate lowered without aging, the table changed by exactly "
+                     "four saturating counter increments, and an aging step floor-halves every counter of the table at once; bounded-exhaustive over all sequences of 3 hashes "
+                     "x 9-13 steps at capacities 0..3. Cache-level clause: in seeded cache histories the popularity table is compared before/after every API call: only get "
+                     "changes it, by exactly one recorded lookup. Non-trivial: a (capacity, stream, seed) case or a cache history in which a get was recorded into an enabled "
+                     "table; distinct by case seed / history fingerprint.",
+                assumptions=COMMON_ASSUMPTIONS + ["the facade's slots() (the implementation's own index function) is trusted to name the four counters of a hash"],
+                watchdog_s=scale(tier, 900, 7200))
+
+
+def plan_c17(pid, tier, seed, ncpu):
+    def jobs(bindirs, workdir, known):
+        js = []
+        n = max(1, ncpu // 2)
+        for s in range(n):
+            out = os.path.join(workdir, "cfg-%d.json" % s)
+            argv = [os.path.join(bindirs["dbg"], "cfgmon"), "--prop", pid, "--seed", str(seed * 31 + s), "--shard", str(s), "--pairs", str(scale(tier, 40000, 1000000) // n), "--out", out]
+            js.append(dict(name="cfg-%d" % s, argv=argv, out=out, kind="report"))
+        return js
+
+    m = 1 if tier == "quick" else 10
+    return dict(variants=["dbg"], jobs=jobs,
+                floors={"builder_combinations": 12288, "boundary_durations_above_limit": 1000, "initial_capacity_differential_pairs": 10000 * m, "unbounded_retention_runs": 4,
+                        "no_weigher_unit_weight_runs": 10, "new_vs_builder_runs": 4},
+                rule="exhaustive over the builder lattice: both kinds x max_capacity {absent,0,1,2^32-1,2^32,u64::MAX} x initial_capacity {absent,0,1,1000} x weigher {absent,present} "
+                     "x time_to_live, time_to_idle {absent,0,1ns,1000y-1ns,1000y,1000y+1ns,1000y+1s,Duration::MAX} x build / build_with_hasher: policy() echoes the inputs, build panics "
+                     "iff a duration exceeds 1000 years (message checked); unbounded caches retain 10^4 inserts of arbitrary weights; without a weigher exactly max_capacity never-read "
+                     "entries are admitted and weighted_size == entry_count; new(n) vs builder().max_capacity(n).build(); and sampled differential histories (deterministic hasher, "
+                     "profiles admission/lru/general/capacity) between a configuration and the same one with initial_capacity in {0,1,2,3,5,8,16,100,1000}, comparing every op result, "
+                     "the physical entries, the recency order, the counters and the popularity table. Non-trivial: a differential pair; distinct by pair seed. The lattice part is exhaustive.",
+                assumptions=COMMON_ASSUMPTIONS + ["huge initial capacities are excluded (an allocation failure aborts the process and is not a property of the cache)"],
+                watchdog_s=scale(tier, 600, 3600))
+
+
+def plan_c08_c11(pid, tier, seed, ncpu):
+    thorough = tier == "thorough"
+
+    def jobs(bindirs, workdir, known):
+        js = []
+        d = bindirs["dbg"]
+        js += seq_jobs(d, workdir, known, pid, "safety", scale(tier, 160000, 3000000), 50, seed, 6, extra=["--drop-percent", "25"])
+        js += seq_jobs(d, workdir, known, pid, "capacity", scale(tier, 40000, 800000), 50, seed, 2, extra=["--drop-percent", "10"])
+        js += con_jobs(d, workdir, known, pid, "baton", seed, 2, programs=scale(tier, 800, 20000), schedules=10)
+        js += con_jobs(d, workdir, known, pid, "stress", seed, 2, programs=scale(tier, 300, 6000), schedules=5)
+        js += con_jobs(d, workdir, known, pid, "park", seed, 1, programs=scale(tier, 30, 600), schedules=4)
+        js += deq_jobs(d, workdir, known, pid, seed, 1, scale(tier, 40000, 800000))
+        if pid == "C08":
+            js += sketch_jobs(d, workdir, known, pid, seed, 2, scale(tier, 2000000, 30000000), big=thorough)
+        a = bindirs["asan"]
+        aj = seq_jobs(a, workdir, known, pid, "safety", scale(tier, 16000, 600000), 50, seed + 1, scale(tier, 4, 8), extra=["--drop-percent", "25"], prefix="aseq")
+        aj += con_jobs(a, workdir, known, pid, "stress", seed + 1, 2, programs=scale(tier, 200, 6000), schedules=5, variant="asan")
+        aj += con_jobs(a, workdir, known, pid, "baton", seed + 1, 1, programs=scale(tier, 200, 6000), schedules=5, variant="asan")
+        aj += deq_jobs(a, workdir, known, pid, seed + 1, 1, scale(tier, 8000, 200000))
+        js += asan_wrap(aj, pid)
+        specs = [("dequemon", ["--seed", str(seed * 13 + i), "--cases", str(scale(tier, 20, 150)), "--ops", "40"]) for i in range(scale(tier, 2, 4))]
+        specs += [("seqmon", ["--profile", "safety", "--seed", str(seed * 17 + i), "--histories", str(scale(tier, 8, 60)), "--ops", "30", "--light", "1", "--drop-percent", "30"]) for i in range(scale(tier, 4, 8))]
+        specs += [("conmon", ["--mode", "baton", "--seed", str(seed * 19 + i), "--programs", str(scale(tier, 2, 10)), "--schedules", "2"]) for i in range(scale(tier, 2, 4))]
+        if thorough:
+            specs += [("conmon", ["--mode", "stress", "--seed", str(seed * 23 + i), "--programs", "6", "--schedules", "2"]) for i in range(4)]
+        js += miri_jobs(workdir, known, pid, specs, seed)
+        if thorough:
+            tb = [("dequemon", ["--seed", str(seed * 29 + i), "--cases", "100", "--ops", "40"]) for i in range(2)]
+            tb += [("seqmon", ["--profile", "safety", "--seed", str(seed * 37 + i), "--histories", "40", "--ops", "30", "--light", "1"]) for i in range(2)]
+            js += miri_jobs(workdir, known, pid, tb, seed, tree_borrows=True)
+            js += tsan_jobs(bindirs["tsan"], workdir, known, pid, seed, 4, 800)
+            js += valgrind_jobs(bindirs["rel"], workdir, known, pid, seed)
+        return js
+
+    m = 1 if tier == "quick" else 10
+    floors = {
+        "lookups_get_hit": 1000 * m, "updates": 1000 * m, "entries_left_invalidated": 1000 * m, "entries_left_ttl_expired": 1000 * m, "entries_left_tti_expired": 1000 * m,
+        "entries_left_for_capacity": 1000 * m, "admission_decisions_admit": 300 * m, "caches_dropped_with_queued_ops": 100 * m, "deque_move_to_back": 1000 * m,
+        "deque_unlink_and_drop": 1000 * m, "deque_cursor_steps_mid_iteration": 1000 * m, "quiescence_checks": 500 * m,
+        "asan_lookups_get_hit": 1000, "asan_entries_left_invalidated": 1000, "asan_entries_left_ttl_expired": 300, "asan_entries_left_tti_expired": 300,
+        "asan_entries_left_for_capacity": 300, "asan_caches_dropped_with_queued_ops": 100, "asan_deque_unlink_and_drop": 1000, "asan_quiescence_checks": 100,
+        "miri_ops": 100, "miri_deque_unlink_and_drop": 10, "miri_deque_move_to_back": 10, "miri_quiescence_checks": 2,
+    }
+    if thorough:
+        floors.update({"tsan_gets_judged": 1000, "memcheck_ops": 10000})
+    if pid == "C08":
+        rule = ("three independent observers over the same workloads: (1) native debug build (overflow checks, debug_assert) with a panic hook (any panic located in mini_moka is a "
+                "violation; harness callbacks never panic) and the structural walker (link invariants, every entry owns exactly its nodes, no duplicate key in a deque, no orphan "
+                "node: the preconditions of memory unsafety); (2) the same binaries under AddressSanitizer + LeakSanitizer; (3) Miri (UB, use-after-free, data races, leaks) on "
+                "down-scaled workloads, Stacked Borrows (thorough: also Tree Borrows), plus ThreadSanitizer on free-running stress and valgrind memcheck on the release build "
+                "(thorough). Workloads: seeded sequential histories over all configurations with caches dropped mid-history with queued ops, concurrent programs (serialized "
+                "scheduler, contention programs, free-running), random op sequences on the intrusive list through the facade against a VecDeque model, and the sketch streams. "
+                "Non-trivial: a history / program / list case that exercised at least one unlink or move path; distinct by fingerprint / case seed.")
+    else:
+        rule = ("instrumented key and value types carry a unique object id; a registry counts constructions, clones and drops and flags a second drop. At every quiescent point the "
+                "number of live key objects and of live value objects must equal the number of entries physically held (hook snapshot); after maintenance no invalidated entry may "
+                "still be held; after dropping the last handle (also mid-history with operations still queued, also after concurrent programs) nothing may be alive; "
+                "LeakSanitizer / Miri report leaked list nodes at process exit. Same workloads as C08, incl. the intrusive-list driver with element drop counts. Non-trivial: "
+                "a cache dropped with queued ops, or a history with removals; distinct by fingerprint / case seed.")
+    return dict(variants=["dbg", "asan", "miri"] + (["tsan", "rel"] if thorough else []), jobs=jobs, floors=floors, rule=rule,
+                assumptions=CON_ASSUMPTIONS + [
+                    "a clean sanitizer run is not memory safety: ASan misses non-adjacent overflows and reuse after quarantine; Miri runs the tagged-pointer code under permissive provenance",
+                    "ThreadSanitizer does not model fences: reports outside mini_moka (triomphe Arc drop) are suppressed and only counted",
+                ],
+                watchdog_s=scale(tier, 1500, 10000))
+
+
 def plan_for(pid, tier, seed, ncpu):
+    if pid == "C14":
+        return plan_c14(pid, tier, seed, ncpu)
+    if pid == "C17":
+        return plan_c17(pid, tier, seed, ncpu)
+    if pid in ("C08", "C11"):
+        return plan_c08_c11(pid, tier, seed, ncpu)
     if pid == "C02":
         return plan_c02(pid, tier, seed, ncpu)
     if pid == "C09":
